@@ -28,11 +28,21 @@ EXPLANATION = ('Parse actions, the and/or folding, the code generator (per node 
 
 
 def task_names(tier):
-    return ['fold', 'actions', 'getpath', 'compare', 'codegen', 'rowloop', 'pipeline']
+    return ['fold', 'actions', 'getpath', 'compare', 'codegen', 'rowloop', 'pipeline', 'grammar/engine', 'grammar/structure', 'grammar/keywords']
 
 
 def run_task(name, tier):
     T = Task(name)
+    if name.startswith('grammar/'):
+        from props import filtergram as FG
+        from hv.peg.grammar import OutOfGrammarSubset
+        try:
+            FG.t_grammar(T, tier, name.split('/')[1])
+        except OutOfGrammarSubset as e:
+            T._add(Obligation('grammar-in-subset', 'unknown', 'relang-peg', 0.0, 'oos', reason='outside the E3 grammar subset: %s' % e, kind='subset'))
+        r = T.result()
+        r['units'] = r['units'] + getattr(T, 'extra_units', [])
+        return r
     globals()['t_' + name](T, tier)
     return T.result()
 
